@@ -36,6 +36,9 @@ let main_loop (f : string list -> string) =
 let case_domains : (string, string list -> string) Hashtbl.t = Hashtbl.create 16
 let whole_domains : (string, unit -> unit) Hashtbl.t = Hashtbl.create 16
 let register name f = Hashtbl.replace case_domains name f
+(* same, but the function receives the raw input line *)
+let line_domains : (string, string -> string) Hashtbl.t = Hashtbl.create 16
+let register_line name f = Hashtbl.replace line_domains name f
 let register_whole name f = Hashtbl.replace whole_domains name f
 
 let main () =
@@ -45,4 +48,13 @@ let main () =
   | None ->
     match Hashtbl.find_opt case_domains domain with
     | Some f -> main_loop f
-    | None -> (prerr_endline ("unknown domain " ^ domain); exit 2)
+    | None ->
+      match Hashtbl.find_opt line_domains domain with
+      | Some f ->
+        (try
+           while true do
+             let line = input_line stdin in
+             if line <> "" then print_endline (try f line with Stack_overflow -> "stackoverflow")
+           done
+         with End_of_file -> ())
+      | None -> (prerr_endline ("unknown domain " ^ domain); exit 2)
